@@ -136,7 +136,7 @@ SendLine(s, t, v, a, x, n) ==
 \* A line the server cannot decode or that exceeds the stream limit: the session ends (nothing else may happen)
 Garbage(s, t) ==
   LET r == ss[s] IN
-  /\ r.ph = "open" /\ ~r.ceof /\ r.h = NoH /\ At(t)
+  /\ r.ph = "open" /\ ~r.ceof /\ At(t)
   /\ Upd(s, [r EXCEPT !.crash = TRUE])
   /\ UNCHANGED <<tree, uused, used, pool, table, srv>>
 
